@@ -79,7 +79,7 @@ func genC18(t *rapid.T) c18Case {
 				op.V = 0 // a zero sample (RTT >= 0 is the domain; the minimum type keeps 0 as its "unset" sentinel, DESIGN 6)
 			}
 		case "plus":
-			op.V = float64(rapid.IntRange(1, 1000).Draw(t, "c"))
+			op.V = float64(rapid.OneOf(rapid.IntRange(1, 1000), rapid.IntRange(1, 6)).Draw(t, "c"))
 		case "addlast":
 			op.N = rapid.SampledFrom([]int{1, 1, 1, 2, 5, 40, 120, 600}).Draw(t, "repeat")
 		}
@@ -228,6 +228,11 @@ func runC18(_ *testing.T, c c18Case) (out kit.Outcome) {
 				// the variance type reports the standard deviation: its flag must be true whenever the
 				// returned standard deviation differs from the previously returned one
 				changed = prevStdevKnown && !sameF(prevStdev, v)
+				if !prevStdevKnown && updated && !sameF(before, got) {
+					// right after an Update there is no previously returned deviation to compare with; what Get()
+					// reports is the stored value all the same, and it moved
+					changed = true
+				}
 				prevStdev, prevStdevKnown = v, true
 			}
 			if changed && !flag {
